@@ -195,8 +195,16 @@ prop("C14", True,
      "field-role provenance of composite literals + lock-dominance table (with caller-held locks) + ownership/escape rule over go/ssa",
      "DESIGN.md §2 C14")
 
+prop("C15", True,
+     "Static necessary-condition checks for faithful relaying; BYTE-FOR-BYTE EQUALITY of what net/http re-serialises, cross-goroutine ordering (ssh exit-status versus end of data), stderr relaying and datagram boundaries ARE NOT DECIDED. "
+     "Decided for every Proxier service (http-proxy, ssh-proxy, copy, dns-proxy): (1) who-may-dial: no outbound connection constructor in the proxy's reach, every backend connection is s.d.Dial(conn) on the director stored by SetDirector, the configured director reaches SetDirector unchanged, and the forward director dials exactly "
+     "JoinHostPort(Host or its host part, this connection's port or the configured port) with the protocol of the local address type and keeps no state; (2) crossing: every relay write's content is traced to a read from the opposite leg (HTTP object, io.Copy pair, framed helper, Read count of the same buffer), ssh credentials/channel-open/requests/replies/data pumps are built from the received object and cross sides once per direction, the ssh recorder passes bytes through; "
+     "(3) readers per leg are created outside the relay loop, a bare Read on a stream leg is never taken as a whole message, connection-type tests match what the dispatcher passes; (4) relaying is not gated on decoding the client's bytes and parsed HTTP objects are not modified before being re-serialised; (5) every relay write to the backend is dominated or followed on every path by an event emission, and event addresses come from the client connection.",
+     "net/http and x/crypto/ssh are trusted to re-serialise/deliver what they parsed; directors other than forward choose their own address by design; wrappers are limited to bufio/textproto constructors and the service's own helpers.",
+     "leg typing of stream values (client/backend) over go/ssa + who-may-call + provenance of relay payloads + dominance/path rules",
+     "DESIGN.md §2 C15")
+
 PENDING = {
- "C01": "check not built yet in this revision (design: DESIGN.md §2 C01)",
 }
 
 def main():
